@@ -45,10 +45,16 @@ Proof. exact candidates_ok. Qed.
 Print Assumptions C17_candidates_well_formed.
 
 (* candidates are ordered by target position *)
-(* statement as proved in V1/Tok1Proof.v (restated through its type) *)
-Theorem C17_candidates_ordered : ltac:(let t := type of (@cand_ordered) in exact t).
+(* statement as proved in V1/Tok1Proof.v (written out; checked against the lemma by exact) *)
+Theorem C17_candidates_ordered :
+  forall (n : Z) (sorted : list mrange) (i j : nat) (ci cj : list mrange) (x y : mrange),
+         Forall (range_ok n) sorted ->
+         sorted_by_target sorted ->
+         sorted <> [] ->
+         i < j ->
+         nth_error (candidates_from_sorted sorted) i = Some ci ->
+         nth_error (candidates_from_sorted sorted) j = Some cj -> In x ci -> In y cj -> (ts x <= ts y)%Z.
 Proof. exact (@cand_ordered). Qed.
-Check C17_candidates_ordered.
 Print Assumptions C17_candidates_ordered.
 
 (* under the real sort order source ranges stay non-empty as well (the second merge branch is dead code) *)
@@ -69,9 +75,10 @@ Proof. exact candidates_target_range_tokenize. Qed.
 Print Assumptions C17_target_range_inside_text.
 
 (* REFUTATION for Tokenize as found: on invalid UTF-8 a token extends past the end of the string *)
-(* statement as proved in V1/Tok1Proof.v (restated through its type) *)
-Theorem C17_original_refuted : ltac:(let t := type of (@unfixed_refuted) in exact t).
+(* statement as proved in V1/Tok1Proof.v (written out; checked against the lemma by exact) *)
+Theorem C17_original_refuted :
+  exists t : token,
+           In t (tokenize U0 false s_bad) /\ N.to_nat (t_off t) + length (t_text t) > length s_bad.
 Proof. exact (@unfixed_refuted). Qed.
-Check C17_original_refuted.
 Print Assumptions C17_original_refuted.
 
